@@ -50,7 +50,7 @@ BOUNDS = {
                            "nothing is claimed for them); arm: 60 paths per job (thorough 400), 40 instructions inside ppci's runtime "
                            "helper __sdiv per run"},
     "thorough": {"programs": "same families with 21 constants K",
-                 "configurations": "every program x levels 0/1/2/s (s also selects ir_to_object(opt='size')) x {rv32im, rv32imc, arm}; the "
+                 "configurations": "every program x levels 0, 2 and one of 1/s (rotating with the seed; api.optimize runs one pass list for 1, 2, s; s also selects ir_to_object(opt='size')) x {rv32im, rv32imc, arm}; the "
                                    "single-operation IR programs additionally with sign-/zero-extended argument registers",
                  "unwinding": "same, 400 paths per job"}}
 OUTSIDE = ["Thumb, m68k, mips, x86_64 and every other target (no ISA model): not claimed",
@@ -357,16 +357,18 @@ def jobs(tier, seed):
             if n % 3 == seed % 3:
                 cfgs.append(("2" if n % 2 else "0", True))
         else:
-            cfgs = [(lv, rvc) for lv in ("0", "1", "2", "s") for rvc in (False, True)]
+            # api.optimize runs the same pass list for levels 1, 2 and s: 0 and 2 everywhere, 1 and s rotate with the seed
+            extra = ("1", "s")[(n + seed) % 2]
+            cfgs = [(lv, rvc) for lv in ("0", "2", extra) for rvc in (False, True)]
         for lv, rvc in cfgs:
             js.append(("mk_code", dict(prog=p, level=lv, rvc=rvc)))
         if tier != "quick" and _c05progs.family(p) in ("n", "u", "c"):
             # the same single-operation programs called with properly sign-/zero-extended argument registers
             for rvc in (False, True):
                 js.append(("mk_code", dict(prog=p, level="0", rvc=rvc, argext="ext")))
-    # ARM A32: one optimisation level per program in quick (alternating 0 / 2 with the seed), all four in thorough
+    # ARM A32: one optimisation level per program in quick (alternating 0 / 2 with the seed), 0, 2 and one of 1/s (rotating) in thorough
     for n, p in enumerate(_c05progs.names(tier, "arm")):
-        lvls = ["2" if (n + seed) % 2 else "0"] if tier == "quick" else ["0", "1", "2", "s"]
+        lvls = ["2" if (n + seed) % 2 else "0"] if tier == "quick" else ["0", "2", ("1", "s")[(n + seed) % 2]]
         for lv in lvls:
             js.append(("mk_code", dict(prog=p, level=lv, march="arm")))
         if tier != "quick" and _c05progs.family(p) in ("n", "u", "c"):
